@@ -28,6 +28,12 @@ var Metas = map[string]Meta{
 		Technique: "symbolic execution of go/ssa + SMT; native replay",
 		Design:    "DESIGN.md §4 C05",
 	},
+	"C17": {
+		Text:      "The real application.start/stop/terminate run symbolically together with the real node.spawn, Kill, SendExit, the real process runner goroutine and unregisterProcess on a hand-built node; members are well-behaved fake behaviours. Every history (which member fails to start, member terminations with each reason class, graceful/forced stop, start again; members busy or idle) within the bound is explored for the three start modes; assertions are the clauses of the property plus 'no call hangs' (the executor reports a goroutine that re-acquires an RWMutex it already holds, and deadlocks). Bounded: <=3 members, <=3 events.",
+		Note:      bmcNote + " Goroutines are scheduled cooperatively in this entry (a goroutine runs until it blocks); dependency ordering of ApplicationStart and registrar routes are outside.",
+		Technique: "symbolic execution of go/ssa over symbolic lifecycle histories with lock/deadlock modelling + SMT; native replay",
+		Design:    "DESIGN.md §4 C17",
+	},
 	"C19": {
 		Text:      "The real Pool.ProcessRun and Pool.forward run symbolically on a fake gen.Process whose Forward returns, per attempt, a symbolic outcome (delivered, unknown, terminated, mailbox full; dead workers stay dead): exactly one hand-over of the very same message object, full workers skipped, dead workers replaced on the spot with LinkParent, ring size kept, drop only when all are full. Bounded: pool <=3, <=3 messages.",
 		Note:      bmcNote,
